@@ -158,9 +158,16 @@ func (w *World) contractForIn(fn *ssa.Function, caller *ssa.Function) *Contract 
 	return w.contractFor(fn)
 }
 
-func (w *World) contractForMethod(cc *ssa.CallCommon) *Contract {
+func (w *World) contractForMethod(cc *ssa.CallCommon, caller *ssa.Function) *Contract {
 	t := cc.Value.Type()
 	key := "(" + t.String() + ")." + cc.Method.Name()
+	if caller != nil && caller.Pkg != nil {
+		if dir, ok := w.pkgDirOf(caller.Pkg.Pkg); ok {
+			if c, ok := w.ss.Contracts["@"+dir+"@"+key]; ok {
+				return c
+			}
+		}
+	}
 	if c, ok := w.ss.Contracts[key]; ok {
 		return c
 	}
